@@ -1,7 +1,7 @@
 SPECIFICATION Spec
 CONSTANTS Nib = {0, 1, 15}
           KeyLen = 3
-          Vals = {10, 271}
+          Vals = {271}
           Pad = 1
           MaxKeys = 3
 INVARIANTS StackRootInv StackEmitInv StackNoPanicInv
